@@ -65,7 +65,7 @@ ASSUMPTIONS = [
     "vf.gen.frames.meta_violation is the comparison discipline (str/object dtype equivalence, index dtype only for non-empty objects)",
     "dask.dataframe is imported through the pyarrow import stub (pandas-backed strings); sync scheduler",
 ]
-BUDGET = {"quick": 60, "thorough": 540}
+BUDGET = {"quick": 90, "thorough": 540}
 FLOORS = {
     # measured on the unchanged tree (seeds 0,1,2,7,12345, complete streams of 1600 cases): results checked >= 1438, partitions
     # >= 4570 (empty >= 868), c36 pipelines >= 553, ops programs >= 885, series/frame/scalar/index results >= 372/965/56/19
@@ -130,6 +130,12 @@ PENDING = {
         'G4 = C36 F5: Filter with an AsType predicate computes the mask (meta says the filtered frame/series)',
     'window:cumsum:int:frame:meta-dtype(int64->float64)@partition':
         'G3 cumsum/cumprod of an int64 column computes float64 (meta int64) - the C46 finding seen through the meta monitor',
+    'c36:filter:series:meta-dtype(bool->float64)':
+        'G5 = C36 F11: apply(axis=1, meta=) on empty partitions yields float64 pieces; the (filtered) result no longer has the given dtype',
+    'c36:other:mask:meta-columns':
+        "G7 = C36 F3: projection of an aligned binary op keeps the other operand's columns; meta has the projected columns only",
+    'c36:str:split-expand:meta-columns':
+        'G9 str.split(n=, expand=True) on a result without rows computes a frame with 0 columns (pandas does too); the meta promises n+1 columns',
 }
 
 OPS_CLASSES = ("reduction", "groupby-agg", "merge", "concat", "shuffle", "window", "repartition", "index", "astype")
